@@ -205,6 +205,12 @@ def parts(ctx):
         A(dict(name="arr-%s-d2" % nm, profile=(lambda i, e_: lambda e: P.arr_profile(e, i, e_))(i, e_),
                depth=2, shards=16, mid_ops=lambda o: o.name != "arrite",
                top_ops=lambda o: o.name != "store", max_new=1 if q else None))
+    # ---- cross-theory terms (children of another theory below every operator)
+    A(dict(name="mixed-d2", profile=lambda e: P.mixed_profile(e), depth=2, shards=32, dom={INT: (-1, 0, 1, 2)},
+           max_new=1 if q else None))
+    if not q:
+        A(dict(name="mixed-quant-d2", profile=lambda e: P.mixed_profile(e, quant=True), depth=2, shards=64,
+               dom={INT: (-1, 0, 2)}, qdoms=QDOMS, top_ops=lambda o: "_" in o.name or o.name in ("not", "and", "iff")))
     # ---- uninterpreted functions
     A(dict(name="uf-d2", profile=P.uf_profile, depth=2, shards=8, dom={INT: (0, 1, 2)}))
     # ---- quantifiers
